@@ -276,3 +276,25 @@ func singleStoreAlloc(al *ssa.Alloc) bool {
 	}
 	return stores <= 1
 }
+
+// containsByValue: a value of type outer holds a value of type inner inside its own memory (is it, or has it as a
+// field / array element at any depth). Pointers, slices, maps and interfaces refer to other objects and do not count.
+func containsByValue(outer, inner types.Type, depth int) bool {
+	if depth > 8 {
+		return true // unknown: be conservative
+	}
+	if types.Identical(outer, inner) {
+		return true
+	}
+	switch u := outer.Underlying().(type) {
+	case *types.Struct:
+		for i := 0; i < u.NumFields(); i++ {
+			if containsByValue(u.Field(i).Type(), inner, depth+1) {
+				return true
+			}
+		}
+	case *types.Array:
+		return containsByValue(u.Elem(), inner, depth+1)
+	}
+	return false
+}
